@@ -300,7 +300,10 @@ def _case(tree, cwd, d, strict, names, base=None, l2t=False, sub=0):
 
 
 def case_from_desc(d):
-    return _case(d['layout'], d.get('cwd'), d.get('dir'), d.get('strict', True), d['names'], d.get('base'), d.get('l2t', False))
+    c = _case(d['layout'], d.get('cwd'), d.get('dir'), d.get('strict', True), d['names'], d.get('base'), d.get('l2t', False))
+    if d.get('realroot'):
+        c['desc']['realroot'] = True
+    return c
 
 
 def chunks(l, n):
@@ -415,6 +418,10 @@ class Layout(object):
         """a model-space name/directory as handed to the real code"""
         if p is None:
             return None
+        if self.desc.get('realroot') and p == '/':
+            return '/'                                # the machine's real root directory (oracle-only cases)
+        if self.desc.get('realroot') and not p.startswith('/'):
+            return self.T.lstrip('/') + '/' + p       # relative to the real root
         return self.T + p if p.startswith('/') else p
 
     def model(self, rp):
@@ -613,7 +620,8 @@ def oracle(c):
 
 
 def extra_search(seed, tier, broken):
-    """layouts outside the model's domain (symlink loops), evaluated by the oracle only"""
+    """layouts outside the model's domain (symlink loops; the machine's real root directory as the
+    configured directory), evaluated by the oracle only"""
     import copy
     out = []
     loops = [
@@ -624,6 +632,14 @@ def extra_search(seed, tier, broken):
                         'r.tex': L('/w/secret.tex')}, 'secret.tex': F()}},
     ]
     rnd = random.Random(seed + 1515)
+    # the machine's real root as the configured directory: everything is inside and must be read
+    # (the layout root only stands for "/" in the model; a real "/" ends with the separator)
+    for tree, d, names in MINIMAL[:3] + MINIMAL[7:9]:
+        tree = mark(copy.deepcopy(tree), '/')
+        names = [n for n in gen_names(rnd, tree, d, 'quick', 30) if '..' not in n.split('/')][:60]
+        c = _case(tree, None, '/', True, names, '/')
+        c['desc']['realroot'] = True
+        out.append(c)
     for t in loops:
         tree = mark(copy.deepcopy(t), '/w/base')
         names = gen_names(rnd, tree, '/w/base', 'quick', 60)
